@@ -1,3 +1,232 @@
 package main
 
-func selftestModels() int { return 0 }
+// Differential self-test of the models against the standard library. The
+// symbolic branch logic of a model is exercised by handing it symbolic bytes
+// that an assumption pins to one concrete value each, and evaluating the
+// result under that assignment.
+
+import (
+	"fmt"
+	"html/template"
+	"strconv"
+	"strings"
+	"unicode/utf8"
+)
+
+type pinned struct {
+	ex   *Exec
+	vals map[string]uint64
+}
+
+func newPinned() *pinned {
+	ex := &Exec{w: &World{}, sol: newSolver("z3", 20000), st: newStats(), q: newQueue(), viols: &violSet{bySig: map[string][]*Violation{}, count: map[string]int{}}}
+	ex.resetPath(nil)
+	ex.fuel = 1 << 40
+	return &pinned{ex: ex, vals: map[string]uint64{}}
+}
+
+// sym returns symbolic bytes pinned to the bytes of s.
+func (p *pinned) sym(s string) Str {
+	out := Str{B: make([]Int, len(s))}
+	for i := 0; i < len(s); i++ {
+		t := p.ex.freshVar("byte", 8)
+		p.ex.assume(mkBool(mkEq(t, mkConst(uint64(s[i]), 8))))
+		p.vals[t.Name] = uint64(s[i])
+		out.B[i] = Int{T: t, W: 8}
+	}
+	return out
+}
+
+func (p *pinned) eval(s Str) (string, bool) {
+	env := func(name string, id int) uint64 { return p.vals[name] }
+	var b []byte
+	for _, e := range s.B {
+		switch {
+		case e.W != 8:
+			return "", false
+		case e.T != nil:
+			b = append(b, byte(e.T.eval(env)))
+		default:
+			b = append(b, byte(e.C))
+		}
+	}
+	return string(b), true
+}
+
+// run executes f on a fresh path; a pathEnd (unsupported) counts as "no answer".
+func run(f func(p *pinned) (string, bool)) (out string, ok bool) {
+	p := newPinned()
+	defer p.ex.sol.close()
+	defer func() {
+		if r := recover(); r != nil {
+			out, ok = fmt.Sprint(r), false
+		}
+	}()
+	return f(p)
+}
+
+func selftestModels() int {
+	bad := 0
+	report := func(what, in, got, want string) {
+		bad++
+		if bad < 20 {
+			fmt.Printf("selftest mismatch: %s(%q): model %q, stdlib %q\n", what, in, got, want)
+		}
+	}
+	var inputs []string
+	for c := 0; c < 256; c++ {
+		inputs = append(inputs, string([]byte{byte(c)}))
+	}
+	inputs = append(inputs, "", "a<b>&'\"c", "<<", "&amp;", "é", "日本", "\xff\xfe", "\xe2\x80\xa8", "a\x00b", "</script>", "\\'\"", "x=y", "\r\n\t")
+	p := newPinned()
+	defer p.ex.sol.close()
+	checked := 0
+	for _, in := range inputs {
+		in := in
+		// html escaper
+		got, ok := run(func(p *pinned) (string, bool) { return p.eval(p.ex.htmlEscape(p.sym(in))) })
+		if want := template.HTMLEscapeString(in); !ok || got != want {
+			report("HTMLEscapeString", in, got, want)
+		}
+		// concrete path of the same model
+		got, ok = run(func(p *pinned) (string, bool) { return p.eval(p.ex.htmlEscape(cstr(in))) })
+		if want := template.HTMLEscapeString(in); !ok || got != want {
+			report("HTMLEscapeString(concrete)", in, got, want)
+		}
+		// js escaper: symbolic model for ASCII input
+		ascii := true
+		for i := 0; i < len(in); i++ {
+			if in[i] >= 0x80 {
+				ascii = false
+			}
+		}
+		if ascii {
+			got, ok = run(func(p *pinned) (string, bool) { return p.eval(p.ex.jsEscape(p.sym(in))) })
+			if want := template.JSEscapeString(in); !ok || got != want {
+				report("JSEscapeString", in, got, want)
+			}
+		}
+		// UTF-8 decoder
+		gotN, ok2 := run(func(p *pinned) (string, bool) {
+			s := p.sym(in)
+			n := 0
+			var rs []string
+			for pos := 0; pos < len(s.B); {
+				r, w := p.ex.decodeRune(s.B[pos:])
+				v := r.C
+				if r.T != nil {
+					v = r.T.eval(func(name string, id int) uint64 { return p.vals[name] })
+				}
+				rs = append(rs, strconv.Itoa(int(int32(v)))+"/"+strconv.Itoa(w))
+				pos += w
+				n++
+			}
+			return strings.Join(rs, ","), true
+		})
+		var wantRs []string
+		for pos := 0; pos < len(in); {
+			r, w := utf8.DecodeRuneInString(in[pos:])
+			wantRs = append(wantRs, strconv.Itoa(int(r))+"/"+strconv.Itoa(w))
+			pos += w
+		}
+		if want := strings.Join(wantRs, ","); !ok2 || gotN != want {
+			report("DecodeRune", in, gotN, want)
+		}
+		// strings models
+		for _, sep := range []string{"a", "<%", "\\<%", "."} {
+			got, ok = run(func(p *pinned) (string, bool) {
+				parts := mStringsSplit(p.ex, []Val{p.sym(in + sep + in), cstr(sep)}).(Slice)
+				var ss []string
+				for _, e := range parts.elems() {
+					s, _ := p.eval(e.(Str))
+					ss = append(ss, s)
+				}
+				return strings.Join(ss, "|"), true
+			})
+			if want := strings.Join(strings.Split(in+sep+in, sep), "|"); !ok || got != want {
+				report("strings.Split", in+sep+in, got, want)
+			}
+			got, ok = run(func(p *pinned) (string, bool) {
+				return p.eval(mStringsReplace(p.ex, []Val{p.sym(in + sep + in), cstr(sep), cstr("R"), cint(-1, 64, true)}).(Str))
+			})
+			if want := strings.Replace(in+sep+in, sep, "R", -1); !ok || got != want {
+				report("strings.Replace", in+sep+in, got, want)
+			}
+		}
+		if ascii {
+			got, ok = run(func(p *pinned) (string, bool) { return p.eval(mStringsTrimSpace(p.ex, []Val{p.sym(" " + in + "\n")}).(Str)) })
+			if want := strings.TrimSpace(" " + in + "\n"); !ok || got != want {
+				report("strings.TrimSpace", in, got, want)
+			}
+		}
+		checked++
+	}
+	// rune encoder
+	for _, r := range []rune{0, 'a', 0x7f, 0x80, 0x7ff, 0x800, 0xd7ff, 0xd800, 0xdfff, 0xe000, 0xfffd, 0xffff, 0x10000, 0x10ffff, 0x110000, -1} {
+		r := r
+		got, ok := run(func(p *pinned) (string, bool) {
+			t := p.ex.freshVar("int", 32)
+			p.ex.assume(mkBool(mkEq(t, mkConst(uint64(uint32(r)), 32))))
+			p.vals[t.Name] = uint64(uint32(r))
+			return p.eval(p.ex.runeToString(Int{T: t, W: 32, S: true}))
+		})
+		if want := string(r); !ok || got != want {
+			report("string(rune)", fmt.Sprint(r), got, want)
+		}
+	}
+	// formatting of concrete values
+	type fc struct {
+		f    string
+		v    Val
+		want string
+	}
+	for _, c := range []fc{
+		{"%v", goInt(-42), fmt.Sprintf("%v", -42)},
+		{"%d", goInt(7), fmt.Sprintf("%d", 7)},
+		{"%s", cstr("x y"), fmt.Sprintf("%s", "x y")},
+		{"%q", cstr("a\"b\n"), fmt.Sprintf("%q", "a\"b\n")},
+		{"%v", Bool{C: true}, "true"},
+		{"%v", Float{V: 1.5, W: 64}, fmt.Sprintf("%v", 1.5)},
+		{"%v", Float{V: 1e21, W: 64}, fmt.Sprintf("%v", 1e21)},
+		{"line %d: %s", goInt(3), ""},
+	} {
+		if c.want == "" {
+			continue
+		}
+		c := c
+		got, ok := run(func(p *pinned) (string, bool) {
+			s, _ := p.ex.sprintf(cstr(c.f), newSlice([]Val{wrapBasic(c.v)}))
+			return p.eval(s)
+		})
+		if !ok || got != c.want {
+			report("fmt.Sprintf "+c.f, fmt.Sprint(c.v), got, c.want)
+		}
+	}
+	// Atoi on pinned symbolic digits
+	for _, in := range []string{"0", "7", "-12", "+5", "123456789", "12a", "", "-", "00012"} {
+		in := in
+		got, ok := run(func(p *pinned) (string, bool) {
+			r := mAtoi(p.ex, []Val{p.sym(in)}).(Tuple)
+			if r[1] != nil {
+				return "error", true
+			}
+			i := r[0].(Int)
+			v := i.C
+			if i.T != nil {
+				v = i.T.eval(func(name string, id int) uint64 { return p.vals[name] })
+			}
+			return strconv.FormatInt(int64(v), 10), true
+		})
+		want := "error"
+		if n, err := strconv.Atoi(in); err == nil {
+			want = strconv.Itoa(n)
+		}
+		if !ok || got != want {
+			report("strconv.Atoi", in, got, want)
+		}
+	}
+	fmt.Printf("selftest: %d inputs x {html, js, utf8, split, replace, trimspace} + rune encoder + formatting + Atoi compared with the standard library, %d mismatches\n", checked, bad)
+	return bad
+}
+
+func wrapBasic(v Val) Val { return v }
